@@ -135,21 +135,31 @@ def check_fresh_defaults(ctx):
             rd_raw = []
             from engine.defuse import reaching_defs
             rd = reaching_defs(fn)
+            def fresh_leaf(v):
+                if isinstance(v, ast.Subscript) and isinstance(v.slice, ast.Slice) and v.slice.lower is None and v.slice.upper is None:
+                    return True         # x[:]
+                if isinstance(v, (ast.List, ast.Dict, ast.Set, ast.Tuple, ast.ListComp, ast.DictComp, ast.SetComp)):
+                    return True         # [*x], {**x}, comprehensions: new containers
+                if isinstance(v, ast.Constant):
+                    return True
+                if isinstance(v, ast.Call):
+                    tg = an.targets(fn, g.nodes_for(v)[0]) if g.nodes_for(v) else []
+                    return bool(tg) and all(an.returns_fresh(t) for t in tg)
+                return False
             for d in rd.reaching(n, arg.id) if isinstance(arg, ast.Name) else []:
-                if d.kind == "assign" and (
-                        (isinstance(d.value, ast.Subscript) and isinstance(d.value.slice, ast.Slice) and d.value.slice.lower is None
-                         and d.value.slice.upper is None) or
-                        (isinstance(d.value, (ast.List, ast.Dict, ast.Set, ast.Tuple, ast.ListComp, ast.DictComp)))):
-                    continue    # x[:], [*x], {**x}, comprehensions: new containers
-                if d.kind == "assign" and isinstance(d.value, ast.Call):
-                    tg = an.targets(fn, g.nodes_for(d.value)[0]) if g.nodes_for(d.value) else []
-                    if tg and all(an.returns_fresh(t) for t in tg):
-                        continue
-                    ok, why = False, "default comes from %s, which does not build a new object" % ast.unparse(d.value)
-                elif d.kind == "assign":
-                    rd_raw.append(d)
-                else:
+                if d.kind != "assign" or d.value is None:
                     ok, why = False, "default has an untracked origin"
+                    continue
+                raw = False
+                for k, leaf in value_sources(fn, d.value, d.node):
+                    if k == "expr" and fresh_leaf(leaf):
+                        continue
+                    if k == "expr" and isinstance(leaf, ast.Call):
+                        ok, why = False, "default comes from %s, which does not build a new object" % ast.unparse(leaf)
+                        continue
+                    raw = True
+                if raw:
+                    rd_raw.append(d)
             if not isinstance(arg, ast.Name):
                 ok, why = False, "default passed as %s" % ast.unparse(arg)
             for d in rd_raw:
